@@ -1,6 +1,7 @@
 package work
 
 import (
+	"bytes"
 	"encoding/json"
 	"fmt"
 	"os"
@@ -11,6 +12,7 @@ import (
 	"strings"
 
 	"google.golang.org/protobuf/encoding/protojson"
+	"google.golang.org/protobuf/encoding/protowire"
 	"google.golang.org/protobuf/internal/filedesc"
 	"google.golang.org/protobuf/internal/impl"
 	"google.golang.org/protobuf/proto"
@@ -148,7 +150,7 @@ var c19MITypes = []string{gen.TOpen2, gen.TOpen3, gen.TEditions, gen.THybrid, ge
 	"goproto.proto.test.TestRequired", "goproto.proto.test.TestRequiredForeign", "goproto.proto.test.TestRequiredForeign", "goproto.proto.test.TestRequiredGroupFields", gen.TReqLazy}
 
 var c19InprocOps = []string{"file-proto", "msg-lookups", "msg-lookups", "enum-lookups", "field-targets", "field-targets", "options", "srcloc", "find-name", "dyn-roundtrip", "dyntypes-ext",
-	"mi-roundtrip", "mi-roundtrip", "mi-reflect", "mi-json", "mi-size", "mi-new", "mi-checkinit", "xi-use", "greg-find", "greg-register", "greg-range", "newfile", "ab-desc", "ab-roundtrip"}
+	"mi-roundtrip", "mi-roundtrip", "mi-reflect", "mi-json", "mi-size", "mi-new", "mi-checkinit", "xi-use", "greg-find", "greg-register", "greg-range", "newfile", "ab-desc", "ab-roundtrip", "dynext-use", "dynext-use"}
 
 var c19ProcOps = []string{"pm-roundtrip", "pm-roundtrip", "pm-roundtrip", "pm-desc", "pm-desc", "pm-file-proto", "pm-json", "pm-legacy", "pm-legacy", "pm-ext", "pm-find", "pm-newfile", "pm-dyn", "pm-aberrant", "pm-aberrant"}
 
@@ -728,6 +730,30 @@ func c19LegacyOp(n int64) sim.OpResult {
 	return sim.OpResult{Digest: h.h, Bad: bad}
 }
 
+var c19DynExtCache []protoreflect.ExtensionType
+
+// c19DynExts: dynamicpb extension types (over protodesc-rebuilt descriptors) of the singular varint
+// extensions of TestAllExtensions.
+func c19DynExts() []protoreflect.ExtensionType {
+	if c19DynExtCache == nil {
+		md := gen.Rebuilt(gen.TExt2)
+		if md == nil {
+			return nil
+		}
+		for _, xt := range gen.ExtensionsOf(md) {
+			xd := xt.TypeDescriptor()
+			if xd.IsList() {
+				continue
+			}
+			switch xd.Kind() {
+			case protoreflect.Int32Kind, protoreflect.Int64Kind, protoreflect.Uint32Kind, protoreflect.Uint64Kind:
+				c19DynExtCache = append(c19DynExtCache, xt)
+			}
+		}
+	}
+	return c19DynExtCache
+}
+
 func c19EditionsProto() *descriptorpb.FileDescriptorProto {
 	fd, err := protoregistry.GlobalFiles.FindFileByPath("internal/testprotos/testeditions/test_import.proto")
 	if err != nil {
@@ -837,6 +863,8 @@ func (c19) Run(s *scn.Scn, x *sim.Exec) {
 			})
 		}
 	}
+	extMT := gen.Type(gen.TExt2) // (looked up before the global registries are swapped out)
+	dynExts := c19DynExts()      // (built here, not by a client: harness caches are not the clients' to initialise)
 	regNext := make([]int, nc)
 	regExts := make([][]protoreflect.ExtensionDescriptor, nc)
 	ptrs := make([][]ptrRec, nc)
@@ -920,6 +948,44 @@ func (c19) Run(s *scn.Scn, x *sim.Exec) {
 				return sim.OpResult{}
 			}
 			return abOp(x, strings.TrimPrefix(op.Op, "ab-"), env.abShapes, env.abTypes, int(op.N)%len(env.abTypes), uint64(op.M))
+		case "dynext-use":
+			// extension types that are not generated ones (dynamicpb over loaded descriptors), used on a
+			// generated message: every client its own type, at the same time; the encoding is known
+			xts := dynExts
+			if len(xts) == 0 {
+				return sim.OpResult{}
+			}
+			h := newHasher()
+			for rep := 0; rep < 3; rep++ {
+				xt := xts[(client*5+int(op.N)+rep*int(op.M%3))%len(xts)]
+				xd := xt.TypeDescriptor()
+				m := extMT.New().Interface()
+				val := uint64(1 + (int(op.M)+rep)%100)
+				var want []byte
+				want = protowire.AppendTag(want, xd.Number(), protowire.VarintType)
+				switch xd.Kind() {
+				case protoreflect.Int32Kind:
+					m.ProtoReflect().Set(xd, protoreflect.ValueOfInt32(int32(val)))
+				case protoreflect.Int64Kind:
+					m.ProtoReflect().Set(xd, protoreflect.ValueOfInt64(int64(val)))
+				case protoreflect.Uint32Kind:
+					m.ProtoReflect().Set(xd, protoreflect.ValueOfUint32(uint32(val)))
+				case protoreflect.Uint64Kind:
+					m.ProtoReflect().Set(xd, protoreflect.ValueOfUint64(val))
+				default:
+					continue
+				}
+				want = protowire.AppendVarint(want, val)
+				b, err := proto.Marshal(m)
+				if err != nil || !bytes.Equal(b, want) {
+					return sim.OpResult{Bad: fmt.Sprintf("I2:dynext-wrong-bytes: generated message with the dynamic extension %s (number %d) set to %d marshals to %x (error %v), want %x", xd.FullName(), xd.Number(), val, b, err, want)}
+				}
+				if got := proto.Size(m); got != len(want) {
+					return sim.OpResult{Bad: fmt.Sprintf("I2:dynext-wrong-size: generated message with the dynamic extension %s set: Size %d, want %d", xd.FullName(), got, len(want))}
+				}
+				h.b(b)
+			}
+			return sim.OpResult{Digest: h.h}
 		case "xi-use":
 			if len(env.xis) == 0 {
 				return sim.OpResult{}
